@@ -73,10 +73,11 @@ def obligations(tier, seed):
            desc="haystack construction of search_page_fwd (through vbi_search_next on a one-page cache): text rows, columns 0..39 in order, one character per "
                 "normal/double-height/double-width/double-size cell, continuation cells (OVER_TOP/OVER_BOTTOM/DOUBLE_HEIGHT2/DOUBLE_SIZE2) skipped, one "
                 "separator 0x000A per row, total length as computed and within the haystack buffer; matcher run once on the whole text",
-           encodes=["search_page_fwd", "vbi_search_next", "vbi_search_new"], defines={"NP": 1, "HC": 2}, grid=[dict(SIZES=v) for v in ("0000", "1400", "3400", "2014", "4500", "6734", "0734", "2234", "5600", "1434")],
+           encodes=["search_page_fwd", "vbi_search_next", "vbi_search_new"], defines={"NP": 1, "HC": 2, "LAST_ROW": 3}, grid=[dict(SIZES=v) for v in ("0000", "1400", "3400", "2014", "4500", "6734", "0734", "2234", "5600", "1434")],
            quick_grid=[dict(SIZES=v) for v in ("0000", "1400", "2014", "6734")],
-           unwind=42, unwindset=us_hay, patch=PATCH,
-           bounds="real page geometry (rows 1..23); rows 1 and 2 carry symbolic cells at columns 0, 1, 39, 40 (unicode and all attributes symbolic, the SIZE "
+           unwind=42, unwindset=us_hay, patch=PATCH_ROWS,
+           bounds="search.c compiled with LAST_ROW = 3: page slice of text rows 1..2 (same row loop; with 23 rows symex needs ~20 s per row and grows: > 8 min); "
+                  "rows 1 and 2 carry symbolic cells at columns 0, 1, 39, 40 (unicode and all attributes symbolic, the SIZE "
                   "attribute of the four cells enumerated on the grid: 10 patterns covering normal, double width/height/size, continuation cells; symbolic "
                   "sizes: 10 GB / no verdict even for one row), other cells blank",
            assumes=["documented vbi_page invariant (format.h, vbi_size): the right neighbour of a DOUBLE_WIDTH/DOUBLE_SIZE cell is an OVER_TOP cell with the same unicode"],
